@@ -181,6 +181,7 @@ class DsObs:
         self.run = run
         self.pub = []            # batches published during the current op
         self.upd = []            # pool / store snapshots after each update_data_structure of the current op
+        self.ev = []             # call-site conditions of recorded findings met during the current op: [key, id]
         self.fresh = False
         self.client = None
         self.last_store = None
@@ -238,6 +239,95 @@ class DsObs:
                 obs.error = traceback.format_exc()[-800:]
             return ret
         dsm.update_data_structure = update_data_structure
+        self._watch_findings(schd)
+
+    def _watch_findings(self, schd):
+        """Record WHEN the exact call-site condition of a recorded finding is met (observation key 'ev'); nothing is
+        changed.  The judge files a pool / store difference of a task under a finding only after such an event.
+
+        remove-flow-stale      delta_remove_task_flow_nums(task, ..) while a flow_nums delta of that task is pending that
+                               differs from the store (the method starts from the store value)
+        set-pre-no-delta       `cylc set --pre` forced prerequisites of a POOLED proxy and the command ended without a
+                               delta_task_prerequisite for it
+        unpooled-object-deltas a delta_* method was handed a TaskProxy object that is not the pool's object of that id
+                               while the pool holds another one (findings/C28.json: unpooled-object-triggered)
+        """
+        obs, dsm, pool = self, schd.data_store_mgr, schd.pool
+
+        def rel(itask):
+            return f'{int(itask.point)}/{itask.tdef.name}'
+
+        orig_rm = dsm.delta_remove_task_flow_nums
+
+        def delta_remove_task_flow_nums(task, removed, *a, **k):
+            try:
+                from cylc.flow.id import Tokens
+                tp_id = Tokens(task, relative=True).duplicate(**dsm.id_).id
+                node = dsm.data[dsm.workflow_id][TASK_PROXIES].get(tp_id)
+                pend = dsm.updated[TASK_PROXIES].get(tp_id)
+                if (node is not None and pend is not None and pend.HasField('flow_nums')
+                        and pend.flow_nums != node.flow_nums):
+                    tok = Tokens(task, relative=True)
+                    obs.ev.append(['remove-flow-stale', f"{int(tok['cycle'])}/{tok['task']}"])
+            except Exception:
+                pass
+            return orig_rm(task, removed, *a, **k)
+        dsm.delta_remove_task_flow_nums = delta_remove_task_flow_nums
+
+        # deltas computed from an object that is not the pooled one
+        def watch(name):
+            orig = getattr(dsm, name)
+
+            def wrapped(itask, *a, **k):
+                try:
+                    cur = pool._get_task_by_id(itask.identity)
+                    if cur is not None and cur is not itask:
+                        obs.ev.append(['unpooled-object-deltas', rel(itask)])
+                    obs.pre_calls.append(id(itask)) if name == 'delta_task_prerequisite' else None
+                except Exception:
+                    pass
+                return orig(itask, *a, **k)
+            setattr(dsm, name, wrapped)
+        self.pre_calls = []
+        for name in ('delta_task_state', 'delta_task_prerequisite', 'delta_task_outputs', 'delta_task_flow_nums',
+                     'delta_from_task_proxy'):
+            watch(name)
+        orig_out = dsm.delta_task_output
+
+        def delta_task_output(itask, message, *a, **k):
+            try:
+                cur = pool._get_task_by_id(itask.identity)
+                if cur is not None and cur is not itask:
+                    obs.ev.append(['unpooled-object-deltas', rel(itask)])
+            except Exception:
+                pass
+            return orig_out(itask, message, *a, **k)
+        dsm.delta_task_output = delta_task_output
+
+        # cylc set --pre on pooled proxies
+        orig_set, orig_spi = pool.set_prereqs_and_outputs, pool._set_prereqs_itask
+
+        def _set_prereqs_itask(itask, *a, **k):
+            ret = orig_spi(itask, *a, **k)
+            try:
+                if pool._get_task_by_id(itask.identity) is itask:
+                    obs.set_pre.append((itask, len(obs.pre_calls)))
+            except Exception:
+                pass
+            return ret
+
+        def set_prereqs_and_outputs(*a, **k):
+            obs.set_pre = []
+            try:
+                return orig_set(*a, **k)
+            finally:
+                for itask, mark in obs.set_pre:
+                    if id(itask) not in obs.pre_calls[mark:]:
+                        obs.ev.append(['set-pre-no-delta', rel(itask)])
+                obs.set_pre = []
+        self.set_pre = []
+        pool._set_prereqs_itask = _set_prereqs_itask
+        pool.set_prereqs_and_outputs = set_prereqs_and_outputs
 
     # -- capture --------------------------------------------------------------
     def feed(self, articles, src='queue'):
@@ -294,11 +384,13 @@ class DsObs:
             'fresh': self.fresh,
             'pub': self.pub,
             'upd': self.upd,
+            'ev': self.ev,
             'store': store,
             'client': client,
             'pending': bool(dsm.publish_pending),
             'error': self.__dict__.pop('error', None),
         }
         self.last_store, self.last_client = fp_s, fp_c
-        self.pub, self.upd, self.fresh = [], [], False
+        self.pub, self.upd, self.ev, self.fresh = [], [], [], False
+        self.pre_calls = []
         return out
